@@ -307,7 +307,7 @@ func runBolt(casesPath, tracePath string) {
 			}()
 		}
 	}()
-	laddr := e2e.FreeAddr()
+	laddr := listenAddr()
 	clusters := e2e.BuildClusters([]e2e.ClusterSpec{{Name: "up", Hosts: []string{ln.Addr().String()}}})
 	lst := e2e.BuildListener(e2e.ListenerSpec{Name: "c17", Addr: laddr, Downstream: "X", Upstream: "X", SubProto: "bolt",
 		Routes: []e2e.RouteSpec{{Prefix: "/", Cluster: "up"}}})
@@ -452,7 +452,7 @@ func runAct(casesPath, tracePath string, shard, shards int) {
 	tmp, _ := os.MkdirTemp("", "c17-")
 	defer os.RemoveAll(tmp)
 	up := newRecUp()
-	laddr := e2e.FreeAddr()
+	laddr := listenAddr()
 	clusters := e2e.BuildClusters([]e2e.ClusterSpec{{Name: "up", Hosts: []string{up.Addr}}})
 	lst := e2e.BuildListener(e2e.ListenerSpec{Name: "c17", Addr: laddr, Downstream: "Http1", Upstream: "Http1",
 		Routes: []e2e.RouteSpec{{Prefix: "/", Cluster: "up"}}})
@@ -881,7 +881,7 @@ func runRetry(casesPath, tracePath, resPath string, shard, shards int) {
 		specs = append(specs, e2e.ClusterSpec{Name: fmt.Sprintf("q%d", mask), Hosts: hosts, LbType: rrr, MaxRequests: 1})
 	}
 	specs = append(specs, e2e.ClusterSpec{Name: "rr0", Hosts: []string{ups[0], ups[1], ups[2], ups[3]}, LbType: v2.LB_ROUNDROBIN})
-	laddr := e2e.FreeAddr()
+	laddr := listenAddr()
 	lst := e2e.BuildListener(e2e.ListenerSpec{Name: "c17", Addr: laddr, Downstream: "Http1", Upstream: "Http1",
 		Routes: []e2e.RouteSpec{{Prefix: "/", Cluster: "p0"}}})
 	m := e2e.StartMosn(e2e.BuildConfig([]v2.Listener{lst}, e2e.BuildClusters(specs), e2e.ScratchLog(tmp)))
@@ -1153,6 +1153,21 @@ func startWatchdog() *int64 {
 		}
 	}()
 	return &maxGap
+}
+
+// listenAddr picks the address of the proxy listener below the kernel's ephemeral port range (32768-60999), derived from
+// the pid: no socket of another process is ever auto-assigned such a port, so the port cannot be taken between this probe
+// and MOSN's own bind (which happens with e2e.FreeAddr when the machine is loaded and many shards start at once).
+func listenAddr() string {
+	for i := 0; i < 200; i++ {
+		port := 12000 + (os.Getpid()*7+i*1013)%20000
+		l, err := net.Listen("tcp", fmt.Sprintf("127.0.0.1:%d", port))
+		if err == nil {
+			l.Close()
+			return fmt.Sprintf("127.0.0.1:%d", port)
+		}
+	}
+	return e2e.FreeAddr()
 }
 
 // refuseAddr returns a loopback address that refuses connections for the life of the process: the port is bound by a
